@@ -327,6 +327,10 @@ def _arpack(A, k, M, sigma, OPinv, kind, mode, which='LM', extra=None):
     if not regs:
         raise _nps.EncodingGap("scipy.sparse.linalg.%s without registered oracle eigenpairs" % kind)
     W, Q = regs[-1]
+    if kind == "eigsh":
+        _hermitian_precondition(c, A, "A")
+        if M is not None:
+            _hermitian_precondition(c, M, "M")
     c.stubs.add("scipy.sparse.linalg.%s (contract oracle: k arbitrary eigenpairs)" % kind)
     c.arpack_calls = getattr(c, "arpack_calls", []) + [dict(kind=kind, A=A, k=k, M=M, sigma=sigma, OPinv=OPinv, mode=mode, which=which,
                                                           extra=dict(extra or {}))]
